@@ -6,7 +6,7 @@ from purecheck import PureCheck
 
 ALPHA = (97, 65317, 769)  # narrow, double-width, combining
 ATTS2 = [fmtlib.PLAIN, fmtlib.RED]
-WID = {97: 1, 98: 1, 32: 1, 65317: 2, 26085: 2, 128512: 2, 769: 0, 8203: 0, 3633: 0, 8205: 0, 4448: 0}
+WID = {97: 1, 98: 1, 99: 1, 32: 1, 65317: 2, 26085: 2, 128512: 2, 769: 0, 8203: 0, 3633: 0, 8205: 0, 4448: 0}
 ALPHA_X = (97, 3633, 65317, 8205, 128512, 4448)   # zero-width characters that are not canonical combining marks, an emoji
 
 
